@@ -11,6 +11,7 @@ spec_headers = ()
 defines_c = ("#define XC_STRLEN_LOOP __CPROVER_assigns(n) "
              "__CPROVER_loop_invariant(n < __CPROVER_OBJECT_SIZE(s) - (size_t)__CPROVER_POINTER_OFFSET(s) && s[__CPROVER_OBJECT_SIZE(s) - (size_t)__CPROVER_POINTER_OFFSET(s) - 1] == 0) "
              "__CPROVER_loop_invariant(g_k < n ==> s[g_k] != 0) "
+             "__CPROVER_loop_invariant((0 < n ==> s[0] != 0) && (1 < n ==> s[1] != 0) && (2 < n ==> s[2] != 0)) "
              "__CPROVER_decreases(__CPROVER_OBJECT_SIZE(s) - (size_t)__CPROVER_POINTER_OFFSET(s) - n)\n"
              "#include <stddef.h>\nextern size_t g_k;\n")
 pre_c = r"""
@@ -39,6 +40,13 @@ U = "(input + g_unit_off)"
 UNITS = [("U2(%s, 'n', 's')" % U, "1L"), ("U2(%s, 'u', 's')" % U, "1000L"), ("U2(%s, 'm', 's')" % U, "1000000L"), ("U1(%s, 's')" % U, "1000000000L"),
          ("U1(%s, 'm')" % U, "60000000000L"), ("U1(%s, 'h')" % U, "3600000000000L"), ("U0(%s)" % U, "1000000000L")]
 contracts = dict(common.SV_CONTRACTS)
+# string_view == "literal" for literals of at most two characters (the unit suffixes): exact
+RL = "(rhs[0] == 0 ? 0UL : rhs[1] == 0 ? 1UL : 2UL)"
+contracts[common.SV_EQ_CSTR] = {"pre":
+    "__CPROVER_requires(lhs.length_ <= XC_MAXLEN && __CPROVER_is_fresh(lhs.data_, lhs.length_))\n"
+    "__CPROVER_requires(__CPROVER_OBJECT_SIZE(rhs) - POFF(rhs) <= 3 && __CPROVER_OBJECT_SIZE(rhs) > POFF(rhs) && rhs[__CPROVER_OBJECT_SIZE(rhs) - POFF(rhs) - 1] == 0)\n"
+    "__CPROVER_assigns()\n"
+    "__CPROVER_ensures(__CPROVER_return_value == (lhs.length_ == %(rl)s && (%(rl)s < 1 || lhs.data_[0] == rhs[0]) && (%(rl)s < 2 || lhs.data_[1] == rhs[1])))\n" % {"rl": RL}}
 contracts.update({
     "GetTimeoutFromString": {
         "ghost": {("after_decl", "unit"): "g_result = result; g_unit_off = POFF(input);"},
@@ -63,6 +71,18 @@ contracts.update({
                "__CPROVER_loop_invariant(__CPROVER_same_object(input, __CPROVER_loop_entry(input)) && POFF(input) <= g_N && result >= 0)\n"
                "__CPROVER_decreases(g_N - POFF(input))\n"}},
 })
+
+H_EQ_CSTR = r"""
+void h_sv_eq_cstr(void)
+{
+  xc_havoc_ghosts();
+  unsigned long n; __CPROVER_assume(n >= 1 && n <= 3);
+  char *lit = malloc(n); __CPROVER_assume(lit != NULL); lit[n - 1] = 0;      /* a literal of at most two characters */
+  string_view lhs;
+  op_eq_2_nostd_string_view_cchar(lhs, lit);
+  __CPROVER_assert(0, "XC_CANARY end of harness reachable");
+}
+"""
 
 # exact decimal value: bounded stand-in (strings of at most 7 bytes, full unwinding; the oracle is computed by the harness)
 H_DECIMAL = r"""
@@ -92,8 +112,15 @@ void h_Timeout_decimal_bounded(void)
 
 proofs = [
     Proof("sv_eq", [("nostd::operator==", 2, "bool (nostd::string_view, nostd::string_view)")], enforce=common.SV_EQ),
-    Proof("GetTimeoutFromString", [("GetTimeoutFromString", 2)], enforce="GetTimeoutFromString", replace=[common.SV_EQ], solver="portfolio3", timeout=600),
-    Proof("Timeout_decimal_bounded", [("GetTimeoutFromString", 2)], harness=H_DECIMAL, loop_contracts=False, unwind=9, level="bounded", solver="portfolio3", timeout=600,
+    Proof("sv_eq_cstr", [("nostd::operator==", 2, "bool (nostd::string_view, const char *)")], enforce=common.SV_EQ_CSTR, replace=[common.SV_EQ],
+          harness=H_EQ_CSTR),
+    Proof("GetTimeoutFromString", [("GetTimeoutFromString", 2)], enforce="GetTimeoutFromString", replace=[common.SV_EQ_CSTR], solver="portfolio3", timeout=900),
+    Proof("Timeout_decimal_bounded4", [("GetTimeoutFromString", 2)],
+          harness=H_DECIMAL.replace("h_Timeout_decimal_bounded", "h_Timeout_decimal_bounded4").replace("char s[8]; s[7] = 0;", "char s[5]; s[4] = 0;"),
+          loop_contracts=False, unwind=6, level="bounded", solver="portfolio3", timeout=600,
+          bound_note="strings of at most 4 bytes (plus terminator), all bytes symbolic, full unwinding",
+          contracts={"xc_strlen_dummy": {}}, desc="bounded stand-in: exact decimal value and exact acceptance for short strings"),
+    Proof("Timeout_decimal_bounded", [("GetTimeoutFromString", 2)], harness=H_DECIMAL, loop_contracts=False, unwind=9, level="bounded", solver="portfolio3", timeout=3000, tier="thorough",
           bound_note="strings of at most 7 bytes (plus terminator), all bytes symbolic, full unwinding",
           contracts={"xc_strlen_dummy": {}}, desc="bounded stand-in: exact decimal value and exact acceptance for short strings"),
 ]
